@@ -21,7 +21,7 @@
    The placeholders are modelled by their effect on a fresh WriteBuffer: `length` is
    `ctxt.bytes_written() - start` at the end, converted with u16/u32::try_from.
    No proofs in this file. *)
-From AV Require Import Base.Prelude Gen.CmapPrefs Model.MacRoman Model.Cmap Model.CmapSubset.
+From AV Require Import Base.Prelude Gen.CmapPrefs Gen.GlyfCmapShapes Model.MacRoman Model.Cmap Model.CmapSubset.
 Open Scope Z_scope.
 
 Definition fit_u16 (v : Z) : outcome Z := if (0 <=? v) && (v <=? 65535) then Ok v else Err BadValue.
@@ -30,10 +30,11 @@ Definition fit_u32 (v : Z) : outcome Z := if (0 <=? v) && (v <=? 4294967295) the
 (* ------------------------------------------------------------------------------------------- *)
 (* Format4Calculator (as repaired)                                                               *)
 
-(* Format4Calculator::new: u16::try_from(len)?, then seg_count > u16::MAX / 2 -> BadValue *)
+(* Format4Calculator::new: u16::try_from(len)?, then seg_count > u16::MAX / 2 -> BadValue
+   (the limit is regenerated from the source: Gen/GlyfCmapShapes.v) *)
 Definition calc_new (seg_count : Z) : outcome Z :=
   n <- fit_u16 seg_count ;;
-  if 32767 <? n then Err BadValue else Ok n.
+  if cmw_max_segments <? n then Err BadValue else Ok n.
 
 (* search_range: 0 for no segment, else 2 * 2^floor(log2 seg_count) (f64 log2 in the Rust; exact on
    1..32767) *)
